@@ -9,5 +9,4 @@ INVARIANT GenValid
 INVARIANT PathSimple
 INVARIANT RefValid
 INVARIANT PickOK
-INVARIANT MutantsRejected
 CHECK_DEADLOCK FALSE
